@@ -13,7 +13,7 @@ STD = ("os", "sys", "math", "string")
 class Gen:
 
   def __init__(self, rng, modname, upstream=(), errors=True, rich=True,
-               theme=None, fork=None):
+               theme=None, fork=None, alias=None):
     self.r = rng
     self.modname = modname
     self.upstream = list(upstream)   # [(name, exported names dict kind->list)]
@@ -27,6 +27,8 @@ class Gen:
     self.generics = []   # names of Generic[T] classes
     self.n = 0
     self.local = {}      # upstream module name -> name it is bound to here
+    self.alias = alias   # preferred `import m as <alias>` name (collisions
+                         # between modules of one chain are wanted)
     self.theme = theme   # class names shared by all programs of one run
     self.fork = fork     # (k, seed): after k statements continue with another
                          # PRNG - two modules with a common prefix and colliding
@@ -161,6 +163,12 @@ class Gen:
       defaults = r.randrange(0, n + 1)
       sig = ", ".join(p if i < n - defaults else "%s=%s" % (p, self.scalar())
                       for i, p in enumerate(params))
+      if r.random() < 0.2:
+        # keyword-only parameters, with and without defaults in any order
+        kws = []
+        for j in range(r.randrange(1, 4)):
+          kws.append("k%d=%s" % (j, self.scalar()) if r.random() < 0.5 else "k%d" % j)
+        sig = (sig + ", " if sig else "") + "*, " + ", ".join(kws)
       self.emit("def %s(%s):" % (name, sig))
       body = r.random()
       if body < 0.3 and params:
@@ -698,9 +706,14 @@ class Gen:
       if len(names) >= 2 and r.random() < 0.6:
         pick = r.sample(names, min(len(names), r.randrange(2, 4)))
         self.emit("from %s import %s" % (up, ", ".join(pick)))
-      if r.random() < 0.25:
+      if self.alias and self.alias not in self.local.values() and r.random() < 0.8:
+        self.local[up] = self.alias
+        self.emit("import %s as %s" % (up, self.alias))
+      elif r.random() < 0.25:
         # `import m as x`: the emitted stub keeps the alias
-        self.local[up] = "al_" + up.replace(".", "_")
+        self.local[up] = r.choice(["al_" + up.replace(".", "_"), "z", "z", "m_"])
+        if self.local[up] in [v for k2, v in self.local.items() if k2 != up]:
+          self.local[up] = "al_" + up.replace(".", "_")   # one name, one module
         self.emit("import %s as %s" % (up, self.local[up]))
       else:
         self.emit("import %s" % up)
@@ -799,8 +812,8 @@ def _split_top(s):
 
 
 def gen_module(rng, modname, upstream=(), errors=True, size=None, theme=None,
-               fork=None):
-  g = Gen(rng, modname, upstream, errors, theme=theme, fork=fork)
+               fork=None, alias=None):
+  g = Gen(rng, modname, upstream, errors, theme=theme, fork=fork, alias=alias)
   src = g.module(size)
   return src, g.exports()
 
